@@ -187,12 +187,18 @@ def terminalSamples (fwd : Bool) (xold te : α) (ip : Option (Interp α)) (s : S
 
 def pushSample (s : St α) (t : α) (y : Array α) : St α := { s with t := s.t.push t, y := s.y.push y }
 
+/-- the terminal event point becomes the final sample unless it already is the last sample -/
+def pushTerminal (s : St α) (t : α) (y : Array α) : St α :=
+  match s.t.back? with
+  | some last => if Num.eqb last t = true then s else pushSample s t y
+  | none => pushSample s t y
+
 /-- process the sorted events; returns the state and whether a terminal event fired -/
 def processEvs (fwd : Bool) (xold : α) (ip : Option (Interp α)) (s : St α) : List (α × Nat × Array α) → St α × Bool
   | [] => (s, false)
   | (te, i, ye) :: rest =>
     if fires (recordEv s te i ye) i then
-      (pushSample (terminalSamples fwd xold te ip (recordEv s te i ye)) te ye, true)
+      (pushTerminal (terminalSamples fwd xold te ip (recordEv s te i ye)) te ye, true)
     else processEvs fwd xold ip (recordEv s te i ye) rest
 
 /-! ### Mode 1 (`t_eval`) sampling.  The two `while` loops of the code scan `t_eval` from `next_idx` while the entry is
@@ -279,7 +285,7 @@ def outputMode2 (s : St α) (xold x : α) (y : Array α) (ip : Option (Interp α
     | some h0 =>
       if ¬ s.firstOutputDone ∧ Num.abs (xold - x) > s.tol then
         let direction := Num.signum (x - xold)
-        let target := s.x0 + direction * h0
+        let target := s.x0 + direction * Num.abs h0
         if direction * (x - target) ≥ -s.tol then
           let s := match ip with
             | some ipv => { s with t := s.t.push target, y := s.y.push (ipv.eval target), firstOutputDone := true }
@@ -292,8 +298,9 @@ def outputMode2 (s : St α) (xold x : α) (y : Array α) (ip : Option (Interp α
   match enforce with
   | some s => s
   | none =>
+    -- `self.t.last() != Some(&x)` (exact duplicates only)
     let fresh := match s.t.back? with
-      | some last => decide (Num.abs (last - x) > s.tol)
+      | some last => !(Num.eqb last x)
       | none => true
     if fresh then { s with t := s.t.push x, y := s.y.push y } else s
 
